@@ -23,6 +23,14 @@ verus! {
 // key of a line: without a regex the trimmed line (blank lines have no key); with a regex the
 // `value` group if it participates, else the whole match, else (no match) no key.
 /// (key text, 1-based first byte column of the key within its line, 1-based last byte column)
+/// C10: "1-based byte columns delimit exactly the offending key": the last column of a key that
+/// occupies bytes [start, end) of the line is `end`; an EMPTY key (a pattern that matches the empty
+/// string on a non-blank line) occupies no byte, its range is the one column at which it was found
+/// -- never a column 0 and never an end before the start.
+spec fn key_end_col(start: int, end: int) -> int {
+    if end > start { end } else { start + 1 }
+}
+
 spec fn key_info(re: Option<Result<regex::Regex, regex::Error>>, line: Seq<char>) -> Option<(Seq<char>, int, int)> {
     match re {
         None => if is_blank(line) { None } else {
@@ -33,8 +41,8 @@ spec fn key_info(re: Option<Result<regex::Regex, regex::Error>>, line: Seq<char>
             if is_blank(line) || !regex::re_is_match(r, line) { None }
             else {
                 match regex::re_group_named(r, line, "value"@) {
-                    Some(m) => Some((m.text, (m.start + 1) as int, m.end as int)),
-                    None => match regex::re_group(r, line, 0) { Some(m) => Some((m.text, (m.start + 1) as int, m.end as int)), None => None },
+                    Some(m) => Some((m.text, (m.start + 1) as int, key_end_col(m.start as int, m.end as int))),
+                    None => match regex::re_group(r, line, 0) { Some(m) => Some((m.text, (m.start + 1) as int, key_end_col(m.start as int, m.end as int))), None => None },
                 }
             },
         Some(Err(_)) => None,
@@ -157,7 +165,7 @@ verif_map_push(violations, file_path.clone(),
 //@edit rule=E9 find=<<$a.as_ptr() as usize - $b.as_ptr() as usize>> count=all optional=1
 verif_offset_in($a, $b)
 //@closure rule=E12 find=<<|m|>> params=<<|m: regex::Match<'a>|>> ret=<<res: (&'a str, RangeInclusive<usize>)>>
-    ensures res.0@ == regex::match_view(m).text, res.1@.start == regex::match_view(m).start + 1, res.1@.end == regex::match_view(m).end
+    ensures res.0@ == regex::match_view(m).text, res.1@.start == regex::match_view(m).start + 1, res.1@.end == key_end_col(regex::match_view(m).start as int, regex::match_view(m).end as int) // [V2.closure.key_span]
 //@end
 
 } // impl
